@@ -112,3 +112,22 @@ def crc_target_stream(bundle, rnd, pool):
         frames.append(frame_of(pl))
         frames.append(frame_of(rnd.choice(pool[:20])))
     return b"".join(frames), frames
+
+
+def validate_values():
+    """
+    -> (values meaning "checksum validation ON", values meaning OFF): the library's exported VAL*
+    flag constants, each OR-ed with / without VALCKSUM (on the pinned tree: ([1], [0])).  A tree
+    that exports further validation flags gets their combinations exercised as well.
+    """
+    import pyrtcm.rtcmtypes_core as core
+
+    flags = sorted({v for k, v in vars(core).items() if k.startswith("VAL") and isinstance(v, int) and not isinstance(v, bool) and 0 <= v < 1 << 16})
+    cks = getattr(core, "VALCKSUM", 1)
+    on = sorted({cks} | {cks | v for v in flags})
+    allv = 0
+    for v in flags:
+        allv |= v
+    on = sorted(set(on) | {allv | cks})
+    off = sorted({0} | {v for v in flags if not v & cks} | {allv & ~cks})
+    return on, off
